@@ -4,6 +4,7 @@ mod rng;
 mod pricefeed_unit;
 mod stats;
 mod vamm_unit;
+mod world;
 
 use std::io::Write;
 
@@ -31,8 +32,12 @@ fn main() {
         "integer" => integer::run(seed, count, &mut out, &mut st),
         "vamm" => vamm_unit::run(seed, count, &mut out, &mut st),
         "pricefeed" => pricefeed_unit::run(seed, count, &mut out, &mut st),
+        "world" => world::run(seed, count, &mut out, &mut st),
         "replay" => {
             let input = std::fs::read_to_string(arg(&args, "--in").expect("--in FILE")).unwrap();
+            if input.lines().any(|l| l.starts_with("CFG ")) {
+                world::replay(&input, &mut out, &mut st);
+            }
             for line in input.lines() {
                 if line.starts_with("I ") {
                     if let Some(l) = integer::replay_line(line) {
